@@ -111,7 +111,23 @@ func cmdReplay(args []string) {
 			}
 			continue
 		}
+		// a case is run once per strategy; a request for a field whose reflection binding the late registration
+		// changes (P.code: bound to a method by the warm-up requests, registered to a struct field afterwards) is
+		// also run in that world whatever its position
+		type pass struct {
+			s     string
+			si    int
+			force int
+		}
+		var passes []pass
 		for si, s := range strings.Split(*strat, ",") {
+			passes = append(passes, pass{s, si, -1})
+			if s == "refl" && strings.Contains(c.Doc.Text(gq.Layouts[0]), "code") {
+				passes = append(passes, pass{s, si, int(gq.BindRegisterLate)})
+			}
+		}
+		for _, ps := range passes {
+			si, s := ps.si, ps.s
 			lm := (i + si + rot) % 3
 			lo := gq.Layouts[(i+si+rot)%len(gq.Layouts)]
 			if s == "refl" && !gq.ReflSuitable(&u, c) {
@@ -128,6 +144,12 @@ func cmdReplay(args []string) {
 			}
 			if s == "refl" {
 				lm = (i + si + rot) % int(gq.NumBindings)
+				if 0 <= ps.force {
+					if lm == ps.force {
+						continue
+					}
+					lm = ps.force
+				}
 			}
 			w := worlds[s+string(rune('0'+lm))]
 			w.NilForm = (i/3 + si + rot) % 3
